@@ -34,6 +34,12 @@ import json, sys, os
 id, prop, clean, patched, build, tests, rc, viol, name, i = sys.argv[1:11]
 p = '/verif/seeded/%s/meta.json' % id
 old = json.load(open(p)) if os.path.exists(p) else {}
+try:
+    needs = json.load(open('/verif/seeded/needs.json'))
+    if id in needs:
+        old["needs_to_manifest"] = needs[id]
+except Exception:
+    pass
 meta = {"id": id, "breaks_property": prop,
         "needs_to_manifest": old.get("needs_to_manifest", "see README excerpt of the seeding agent (/verif/seeded/%s-README.md, change %s)" % (prop, i)),
         "source": "independent sub-agent given only the property text and its own worktree (seed_%s, change %s)" % (name, i),
